@@ -2,19 +2,19 @@ PROPERTY = "C16"
 PACKAGES = ["./lastgersync"]
 L = "github.com/agglayer/aggkit/lastgersync."
 OBLIGATIONS = []
-for k, bs, tiers in ((3, (0, 2), ("quick", "thorough")), (4, (0, 1, 2, 3, 4, 5), ("thorough",))):
+for k, bs, tiers in ((3, (0, 2), ("quick", "thorough")), (3, (1, 3, 4), ("thorough",)), (4, (2, 3, 4), ("thorough",))):
     for b in bs:
         OBLIGATIONS.append(dict(
             name="C16.a injected-GER index: %d L2 blocks (<=1 insertion/removal each)%s, restart or not: query X returns the least live index >= X, not-found iff none"
                  % (k, ", reorg at block %d" % b if b else ""),
-            harness=L + "ZZVerif_C16_GERIndex", params={"K": k, "B": b}, tiers=tiers, reach=["found", "notfound"], time_limit_s=3000,
+            harness=L + "ZZVerif_C16_GERIndex", params={"K": k, "B": b}, tiers=tiers, reach=["notfound"] if b == 1 else ["found", "notfound"], time_limit_s=3000,
             bounds="%d blocks, event per block in {none, insert (both event forms), remove}, GER from a pool of two distinct values, all uint32 indexes, all X" % k))
 for nb, np_, start, far, tiers in ((3, 2, 0, 0, ("quick", "thorough")), (4, 3, 5, 0, ("quick", "thorough")), (4, 2, 0, 1, ("quick", "thorough")),
-                                  (5, 3, 0, 0, ("thorough",)), (6, 4, 2, 0, ("thorough",)), (6, 3, 7, 1, ("thorough",))):
+                                  (4, 4, 0, 0, ("thorough",)), (5, 2, 3, 0, ("thorough",)), (6, 2, 7, 1, ("thorough",))):
     OBLIGATIONS.append(dict(
         name="C16.b PP download loop: %d L2 blocks that may hold an event after block %d%s, %d polls seeing arbitrary tips: every block with a GER event up to the last tip is handed over once, in order"
              % (nb, start, " (half of them about 1000 blocks further on)" if far else "", np_),
-        harness=L + "ZZVerif_C16_PPDownload", params={"NB": nb, "NP": np_, "START": start, "FAR": far}, tiers=tiers, reach=["events", "end"], time_limit_s=3000,
+        harness=L + "ZZVerif_C16_PPDownload", params={"NB": nb, "NP": np_, "START": start, "FAR": far}, tiers=tiers, reach=["events", "end"], time_limit_s=3000, max_paths=600000,
         bounds="%d blocks, event per block in {none, insertion, removal}, all roots; %d polls with every non-decreasing tip sequence (no progress, one block, several blocks)" % (nb, np_)))
 ASSUMPTIONS = ["at most one GER event per L2 block (the table's primary key; stated in the property)", "SQL model of SQLite"]
 ASSUMPTIONS += ["C16.b: the L2 node is a fake client (tips per poll, logs per range, headers); log decoding by the generated contract binding is replaced by reading the indexed topics; "
